@@ -380,6 +380,65 @@ fn search_sweep(ctx: &mut Ctx) {
     ctx.gen = "enum";
 }
 
+/// Dictionary seeds: every string / byte-string literal of the crate's non-test source (tools/witness.py writes them, one hex
+/// line each, to the file named by WITNESS_DICT).  A fast path that recognises one exact spelling is reached only by that
+/// spelling: each literal is tried alone, cut at every prefix, and embedded at the places a message can carry it.
+fn search_dict(ctx: &mut Ctx) {
+    let path = match std::env::var("WITNESS_DICT") { Ok(p) => p, Err(_) => return };
+    let text = match std::fs::read_to_string(&path) { Ok(t) => t, Err(_) => return };
+    ctx.gen = "dictionary";
+    let lits: Vec<Vec<u8>> = text.lines().filter(|l| !l.trim().is_empty()).map(|l| unhex(l.trim())).filter(|l| l.len() >= 2 && l.len() <= 200).collect();
+    let cat = |parts: &[&[u8]]| -> Vec<u8> { let mut v = vec![]; for p in parts { v.extend_from_slice(p); } v };
+    for lit in &lits {
+        let l: &[u8] = lit;
+        let forms: Vec<Vec<u8>> = vec![
+            l.to_vec(), cat(&[l, b" / HTTP/1.1\r\n\r\n"]), cat(&[l, b"/ HTTP/1.1\r\n\r\n"]), cat(&[l, b"/x HTTP/1.0\r\nA: b\r\n\r\n"]), cat(&[l, b"\r\n\r\n"]), cat(&[l, b"\r\n"]), cat(&[l, b"\n\n"]),
+            cat(&[l, b" 200 OK\r\n\r\n"]), cat(&[l, b"200 OK\r\n\r\n"]), cat(&[l, b"A: b\r\n\r\n"]), cat(&[l, b"x"]), cat(&[l, b" "]), cat(&[l, b"\t/ HTTP/1.1\r\n\r\n"]),
+            cat(&[b"GET ", l, b" HTTP/1.1\r\n\r\n"]), cat(&[b"GET /", l, b" HTTP/1.1\r\nHost: x\r\n\r\n"]), cat(&[b"GET / ", l, b"\r\n\r\n"]), cat(&[b"GET / ", l]),
+            cat(&[b"HTTP/1.1 200 ", l, b"\r\n\r\n"]), cat(&[b"HTTP/1.1 ", l, b"\r\n\r\n"]), cat(&[b"HTTP/1.1 ", l]), cat(&[b"\r\n", l]), cat(&[b"\n", l, b"\r\n\r\n"]),
+            cat(&[b"GET / HTTP/1.1\r\n", l, b": v\r\n\r\n"]), cat(&[b"GET / HTTP/1.1\r\nN: ", l, b"\r\n\r\n"]), cat(&[b"HTTP/1.1 200 OK\r\nN:", l, b"\r\n\r\n"]),
+            cat(&[b"1", l, b"\r\n"]), cat(&[b"1;", l, b"\r\n"]),
+        ];
+        for f in &forms {
+            for &c in &[0u8, 4 + 64 + 16, 127] { check_request(ctx, f, c, 2); }
+            for &c in &[0u8, 8 + 32 + 16, 127] { check_response(ctx, f, c, 2); }
+            check_headers(ctx, f, 2);
+            check_chunk(ctx, f);
+        }
+        for k in 0..l.len() { check_request(ctx, &l[..k], 0, 1); check_response(ctx, &l[..k], 0, 1); check_chunk(ctx, &l[..k]); }
+        if ctx.full() { return; }
+    }
+    ctx.gen = "enum";
+}
+/// Wide vector strides: two bytes of a boundary alphabet exactly 16 / 32 / 64 / 96 bytes apart inside a long target, value or
+/// name (a scanner that folds several vectors before testing them confuses lanes that far apart), at every offset of three
+/// 128-byte blocks; and folded header values of every first-line / continuation length with 0..64 bytes behind the head (a
+/// scanner tail that looks back over the bytes before the cursor meets the fold's CRLF there).
+fn search_strides(ctx: &mut Ctx) {
+    ctx.gen = "stride-pairs";
+    const S: &[u8] = &[0x00, 0x09, 0x0a, 0x0d, 0x1f, 0x20, 0x7f, 0x80, 0xff];
+    for &d in &[16usize, 32, 64, 96] { for p in 0..384usize { for &x in S { for &y in S {
+        if x == b'v' && y == b'v' { continue; }
+        let mut v = pad(b'v', 384 + 128); v[p] = x; v[p + d] = y;
+        let mut m = b"N: ".to_vec(); m.extend(&v); m.extend(b"\r\nM: x\r\n\r\n");
+        check_headers(ctx, &m, 3);
+        if p % 4 == 0 {
+            let mut r = b"GET /".to_vec(); r.extend(&v); r.extend(b" HTTP/1.1\r\n\r\n"); check_request(ctx, &r, 0, 1);
+            let mut n = v.clone(); for b in n.iter_mut() { if *b == b'v' { *b = b'n'; } } n.extend(b": v\r\n\r\n"); check_headers(ctx, &n, 2);
+        }
+        if ctx.full() { return; }
+    } } } }
+    ctx.gen = "fold-lengths";
+    for l1 in 0..72usize { for l2 in 0..40usize { for &t in &[0usize, 1, 8, 31, 32, 64] { for eol in [&b"\r\n"[..], b"\n"] {
+        let mut m = b"HTTP/1.1 200 OK\r\nX: ".to_vec(); m.extend(pad(b'a', l1)); m.extend_from_slice(eol); m.push(b' '); m.extend(pad(b'b', l2)); m.extend_from_slice(eol); m.extend_from_slice(eol);
+        m.extend(pad(b'B', t));
+        check_response(ctx, &m, 2, 2);
+        if l2 % 8 == 0 { check_response(ctx, &m, 2 + 32, 2); check_response(ctx, &m, 0, 2); }
+        if ctx.full() { return; }
+    } } } }
+    ctx.gen = "enum";
+}
+
 fn pad(c: u8, n: usize) -> Vec<u8> { vec![c; n] }
 /// WITNESS_DEEP=k (thorough tier): every bounded-exhaustive enumeration goes k symbols deeper
 fn deep() -> usize { std::env::var("WITNESS_DEEP").ok().and_then(|v| v.parse().ok()).unwrap_or(0) }
@@ -823,6 +882,8 @@ fn main() {
         if fam == "headers" || fam == "all" { search_header_block(&mut ctx, b"", 2); }
         if fam == "history" || fam == "all" { search_history(&mut ctx); }
         if fam == "sweep" || fam == "all" { search_sweep(&mut ctx); }
+        if fam == "dict" || fam == "all" { search_dict(&mut ctx); }
+        if fam == "strides" || fam == "all" { search_strides(&mut ctx); }
         let pa = PARSE_ALLOCS.load(Ordering::Relaxed);
         if pa > 0 {
             ctx.max += 1;
